@@ -196,9 +196,10 @@ def MATCH(kind, term, *arms):
 def infinite():
     """loop / anyo: every produced answer must be an answer of the body (prefix of an infinite stream)."""
     t = []
-    t.append(T('loop_single', [('loop', [OP('conde', EQ(q, P(0)), EQ(q, P(1)))]), NE(q, P(2))], 'subset', 6))
+    # (a filter must never be able to remove every answer of a round: the program would really diverge)
+    t.append(T('loop_single', [('loop', [OP('conde', EQ(q, P(0)), EQ(q, N(7)))]), NE(q, P(1))], 'subset', 6))
     t.append(T('loop_two_clauses', [FRESH(['x', 'y'], EQ(q, L(x, y)), ('loop', [EQ(x, P(0)), EQ(y, P(1))]))], 'subset', 5))
-    t.append(T('loop_clause_and_filter', [('loop', [OP('conde', EQ(q, P(0)), EQ(q, P(1))), NE(q, P(0))])], 'subset', 5))
+    t.append(T('loop_clause_and_filter', [('loop', [OP('conde', EQ(q, P(0)), EQ(q, N(7))), NE(q, P(0))])], 'subset', 5))
     t.append(T('anyo_bracketed', [FRESH(['x', 'y'], EQ(q, L(x, y)), ('anyo', [[EQ(x, P(0)), OP('conde', EQ(y, P(1)), EQ(y, P(2)))]]))], 'subset', 6))
     t.append(T('conde_with_loop_branch', [OP('conde', [('loop', [EQ(q, P(0))])], EQ(q, P(1)))], 'subset', 6))
     return t
